@@ -28,6 +28,7 @@ struct Shape {
   unsigned depthMax;
 };
 
+static bool g_focusC02 = false;
 static void generate(Case& c, Rng& rng, const WLEntry& wl, bool thorough, long maxItemsParam) {
   unsigned maxItems = thorough ? (unsigned)rng.pick({200, 2000, 8000, 30000}) : (unsigned)rng.pick({100, 800, 3000, 8000});
   if (maxItemsParam > 0)
@@ -42,6 +43,16 @@ static void generate(Case& c, Rng& rng, const WLEntry& wl, bool thorough, long m
   unsigned delayPct  = (unsigned)rng.pick({0, 0, 1, 5, 20});
   unsigned beforePct = (unsigned)rng.pick({0, 30, 100});
   unsigned prioRange = (unsigned)rng.pick({1, 2, 8, 64, 1000, 100000});
+  if (g_focusC02) { // isolation focus: few objects, big overlapping neighbourhoods, slow owners
+    c.nObjs   = (unsigned)rng.pick({1, 2, 3, 4, 8, 16, 64});
+    nnMax     = (unsigned)rng.pick({1, 2, 3, 5, 8, 16});
+    delayPct  = (unsigned)rng.pick({0, 5, 20, 50});
+    vabortPct = c.threads > 1 ? (unsigned)rng.pick({0, 10, 30}) : 0;
+  }
+  if (wl.flags & (F_BARRIER | F_BSP)) { // every level switch costs barriers + a termination round: bound the levels
+    prioRange = std::min(prioRange, (unsigned)rng.pick({1, 2, 8, 64, 300}));
+    depthMax  = std::min(depthMax, 12u);
+  }
   bool monotone      = wl.flags & F_MONOTONE;
   unsigned levelStep = (unsigned)rng.pick({0, 1, 1, 3}); // child prio = parent prio + step(+rand)
 
@@ -277,6 +288,8 @@ static void checkLevels(Case& c, Harness& H, const WLEntry& wl, uint64_t& levels
         if (!from)
           continue;
       }
+      if (from >= e)
+        continue; // cannot happen with a sound ticket clock; never guess
       ivs.push_back({from, e, c.prog[id].prio, id});
       starts.push_back({s, id});
       levels.insert(c.prog[id].prio);
@@ -307,8 +320,11 @@ static void checkLevels(Case& c, Harness& H, const WLEntry& wl, uint64_t& levels
     for (const Ev& e : evs) {
       if (e.kind == 0)
         open.insert({ukey(ivs[e.idx].prio), ivs[e.idx].id});
-      else if (e.kind == 2)
-        open.erase(open.find({ukey(ivs[e.idx].prio), ivs[e.idx].id}));
+      else if (e.kind == 2) {
+        auto f = open.find({ukey(ivs[e.idx].prio), ivs[e.idx].id});
+        if (f != open.end())
+          open.erase(f);
+      }
       else {
         uint32_t x = starts[e.idx].second;
         if (!open.empty()) {
@@ -339,6 +355,7 @@ int main(int argc, char** argv) {
   std::string focus  = H.param("focus");    // "c02": always conflicts, heavy contention; "c08": level-synchronous only
   long maxItemsParam = H.paramInt("maxitems", 0);
   long oversub       = H.paramInt("oversub", 0);
+  g_focusC02         = focus == "c02";
   std::vector<const WLEntry*> pool;
   for (auto& e : reg) {
     if (!only.empty() && !strstr(e.name, only.c_str()))
@@ -370,7 +387,7 @@ int main(int argc, char** argv) {
     c.conflicts       = focus == "c02" ? true : rng.below(3) != 0;
     if (focus == "c08")
       c.conflicts = (wl.flags & F_BSP) ? false : rng.below(2); // BSP+cd is a separate (known) class, see C01
-    c.pia = c.conflicts && rng.below(4) == 0;
+    c.pia = c.conflicts && rng.below(focus == "c02" ? 2 : 4) == 0;
     switch (rng.below(6)) {
     case 0: c.threads = maxT; break;
     case 1: c.threads = 1; break;
@@ -381,9 +398,16 @@ int main(int argc, char** argv) {
       c.threads = std::min(maxT, 2 + (unsigned)rng.below(maxT));
     c.recordLevels = wl.flags & (F_BSP | F_BARRIER);
     generate(c, rng, wl, H.thorough, maxItemsParam);
-    if (focus == "c02") { // contention: few objects
-      // regenerate neighbourhoods over a small object set
+    bool piaStress = false;
+    if (focus == "c02" && c.pia && rng.below(3) == 0 && !VERIF_ASAN && !VERIF_TSAN) {
+      // "discarded" is observed as no linear growth: every attempt allocates 4000 bytes from the
+      // per-iteration allocator; if aborted or committed attempts kept their allocations the page pool
+      // would grow by (attempts * 4000 B / 2 MB) pages
+      piaStress = true;
+      for (auto& p : c.prog)
+        p.allocBytes = 4000;
     }
+    size_t pagesBefore = galois::runtime::numPagePoolAllocTotal();
     unsigned pointProb = (unsigned)rng.pick({0, 0, 64, 1024, 4096});
     unsigned spinProb  = (unsigned)rng.pick({0, 0, 512, 8192});
     if (oversub)
@@ -411,6 +435,20 @@ int main(int argc, char** argv) {
       if (v.set.load() == 2)
         H.violation(v.key, J().kv("worklist", c.wlName).kv("threads", c.threads).kv("detail", v.detail).str());
     Counts cnt        = checkAfter(c, H);
+    uint64_t piaStressCases = 0;
+    if (piaStress) {
+      size_t pagesAfter = galois::runtime::numPagePoolAllocTotal();
+      uint64_t bytes    = cnt.starts * 4000ull;
+      uint64_t wouldNeed = bytes / (2ull << 20);
+      if (wouldNeed >= 16) { // only decisive when a leak would need at least 16 pages
+        piaStressCases = 1;
+        if (pagesAfter - pagesBefore > wouldNeed / 4 + 4 + 2 * c.threads)
+          H.violation(c.key("C02", "per-iter-alloc-not-discarded"),
+                      J().kv("worklist", c.wlName).kv("attempts", cnt.starts).kv("bytes_allocated_by_attempts", bytes)
+                          .kv("page_pool_pages_before", (uint64_t)pagesBefore).kv("after", (uint64_t)pagesAfter)
+                          .kv("pages_a_leak_would_need", wouldNeed).str());
+      }
+    }
     uint64_t levels   = 0;
     if (c.recordLevels && !(c.conflicts && (wl.flags & F_BSP)))
       checkLevels(c, H, wl, levels);
@@ -430,6 +468,7 @@ int main(int argc, char** argv) {
               .kv("voluntary_aborts", cnt.vaborts).kv("threads_that_committed", cnt.threadsUsed)
               .kv("commits_with_objects_replayed", cnt.objCommits).kv("levels_checked", levels)
               .kv("max_attempts_without_commit", c.maxSinceCommit.load())
+              .kv("per_iter_alloc_growth_cases", piaStressCases)
               .kv("multi_socket_cases", (int)(nsock > 1 && c.threads > 1)).str());
     g_case = nullptr;
   }
